@@ -102,7 +102,14 @@ def gen_field(rng, name, used, depth, counter):
         if kk == 'uint':
             key.update(fixed_len=None, base=None, default=None)
         vt = fresh_type(rng, used)
-        vk = rng.choice(['uint', 'bytes', 'text', 'model'] if depth < 2 else ['uint', 'bytes'])
+        vk = rng.choice(['uint', 'bytes', 'text', 'model', 'name'] if depth < 2 else ['uint', 'bytes', 'name'])
+        if vk == 'name':
+            if 7 in used:
+                vk = 'bytes'
+            else:
+                used.add(7)
+                used.discard(vt)
+                vt = 7
         val = {'kind': vk, 'name': name + '_v', 'type': vt}
         if vk == 'uint':
             val.update(fixed_len=rng.choice([None, 4]), base=None, default=None)
